@@ -127,6 +127,27 @@ Out run_block_solver(const Req &r) {
         if (r.form == 0) std::tie(o.iters, o.resid) = S(r.f, o.x); else std::tie(o.iters, o.resid) = S(At, r.f, o.x);
     });
 }
+#if !C13_EIGEN
+// the same wrapper called with vectors the user already keeps in block form (std::vector of b x 1 blocks): the wrapper
+// reinterprets them, every reduction over them (norm of the right-hand side!) must see all n scalars
+Out run_block_solver_bv(const Req &r) {
+    typedef typename math::rhs_of<Block>::type RhsB;
+    return guarded([&](Out &o) {
+        Arrays a(*r.A); auto At = std::tie(a.n, a.ptr, a.col, a.val);
+        ptree p = c13::base_params(r, false, true, true);
+        S2 S(At, p);
+        { std::ostringstream os; os << S; o.levels = c13::parse_levels(os.str()); }
+        o.opdiff = opdiff(S.system_matrix(), *r.A);
+        const int nb = a.n / b;
+        std::vector<RhsB> F(nb), X(nb);
+        for (int i = 0; i < nb; ++i) for (int q = 0; q < b; ++q) { F[i](q) = r.f[i * b + q]; X[i](q) = r.x0[i * b + q]; }
+        if (r.form == 0) std::tie(o.iters, o.resid) = S(F, X); else std::tie(o.iters, o.resid) = S(At, F, X);
+        o.x.assign(a.n, 0.0);
+        for (int i = 0; i < nb; ++i) for (int q = 0; q < b; ++q) o.x[i * b + q] = X[i](q);
+    });
+}
+c13::Registrar r1b("block_solver_bv", b, BTYPE, run_block_solver_bv);
+#endif
 c13::Registrar r1("block", b, BTYPE, run_block), r2("block_solver", b, BTYPE, run_block_solver), r3("as_scalar_rt", b, BTYPE, run_as_scalar_rt);
 #endif
 
